@@ -87,6 +87,8 @@ def rowlocal(u, name, make_inputs, call, requires=None, tags=("C04",), skip_outp
     Run L has batch size B_L, run R batch size B_R (independent, >= 1). Row rowR of R is *defined* to be
     row rowL of L (same terms; every other row of both batches is arbitrary), which is exactly the
     hypothesis "the two rows carry the same instance and state". Goal: all outputs of the two rows agree."""
+    if tuple(tags) == ("C04",):
+        tags = ("C04", "C14")    # per-instance environment dynamics are also a premise of per-instance inference (C14)
     ctx = cur()
     ctx.prefix = "L_"
     BL = u.dim("B")
